@@ -53,13 +53,13 @@ def run(oc, tier, seed):
     oc.rule = ("EXHAUSTIVE over legal header-level sequences (first header H1 or H2, at most one level deeper than the "
                "previous) of length <= %d, %d random decorations each: every title line, later header line, section header, "
                "in-block comment and item carries its own tags, links, properties (with keys shared across scopes), digits-only "
-               "tags and dates; 0-2 blocks per section; compared per note: tags, links, properties, create date (spec) and all "
+               "tags and dates; every header carries 2-4 decorations and every section 1-2 blocks; compared per note: tags, links, properties, create date (spec) and all "
                "fields against the listener model; non-trivial = skeleton has >= 2 headers" % (maxlen, reps))
     pages, sks = [], []
     for n in range(0, maxlen + 1):
         for sk in pagegen.all_skeletons(n):
             for _ in range(reps):
-                pages.append(pagegen.gen_page(rng, skeleton=sk))
+                pages.append(pagegen.gen_page(rng, skeleton=sk, rich=True))
                 sks.append(sk)
     oc.count("skeletons", len(set(map(tuple, sks))))
     texts = [pagegen.render(p) for p in pages]
